@@ -270,11 +270,11 @@ fn fixed_two_always(ctx: &Ctx) -> CaseInfo {
 pub fn def() -> PropertyDef {
     PropertyDef {
         id: "C07",
-        rule: "a disjunction of 2-4 branches (finite goals with distinct markers, infinite producers loop{q==c} / [always(), q==c] / nat-based, silent divergers never() / loop{false} / a self-calling closure / `q==c, never()`), placed at top level, after a deterministic prefix, under fresh, inside an outer conde branch, or behind never() in an outer conde, as conde or as the body of loop{}. Oracle (bounded liveness, engine steps from the hook): each branch alone under 2000 steps yields its first <=3 answers (obligations, cost s_i); the whole disjunction must yield all obligations within 256*max(s_i)+10000 steps, re-run with 10x before reporting. Non-trivial = an infinite or diverging branch precedes a branch that has obligations; distinct = hash of the printed program. Family `scale`: the same oracle for disjunctions of up to 200 (thorough 600) branches with 1-3 producers / divergers among finite ones (2 obligations per branch), and for a silent diverger buried below up to 400 (thorough 2000) pending conjunctions (deepnever) next to productive siblings with 40 obligations each (branches alone get 6000 steps, the whole disjunction 64*max(s_i)+10000)",
+        rule: "a disjunction of 2-4 branches (finite goals with distinct markers, infinite producers loop{q==c} / [always(), q==c] / nat-based, silent divergers never() / loop{false} / a self-calling closure / `q==c, never()`), placed at top level, after a deterministic prefix, under fresh, inside an outer conde branch, or behind never() in an outer conde, as conde or as the body of loop{}. Oracle (bounded liveness, engine steps from the hook): each branch alone under 2000 steps yields its first <=3 answers (obligations, cost s_i); the whole disjunction must yield all obligations within 256*max(s_i)+10000 steps, re-run with 10x before reporting. Non-trivial = an infinite or diverging branch precedes a branch that has obligations; distinct = hash of the printed program. Family `scale`: the same oracle for disjunctions of up to 200 (thorough 600) branches with 1-3 producers / divergers among finite ones (2 obligations per branch), and for a silent diverger buried below up to 400 (thorough 1000) pending conjunctions (deepnever) next to productive siblings with 40 obligations each (branches alone get 6000 steps, the whole disjunction 64*max(s_i)+10000)",
         assumptions: vec!["bounded liveness only: a fair scheduler more than ~2500x slower than the bound would be misreported; needs the step-counter hook"],
         families: vec![
             Family { name: "disjunctions", max_len: 64, quick: 60_000, thorough: 1_200_000, run: run_family },
-            Family { name: "scale", max_len: 48, quick: 3_000, thorough: 50_000, run: run_scale },
+            Family { name: "scale", max_len: 48, quick: 3_000, thorough: 30_000, run: run_scale },
         ],
         fixed: vec![Fixed { name: "never-before-finite", run: fixed_never_first }, Fixed { name: "two-always-producers", run: fixed_two_always }],
         witnesses: vec![],
